@@ -6,11 +6,11 @@ Import ListNotations.
 From ByC Require Import Base.Result Base.FloatBase Base.FloatFacts Model.Cycles Model.Epoch Model.Window Proofs.Window.
 
 (* limit_df returns, in order and with unchanged payload, exactly the rows passing the window test,
-   all six sample columns shifted by one and the same offset int(fs*start) (or none) *)
+   all six sample columns shifted by one and the same offset — the sample index nearest to fs*start — (or none) *)
 Theorem C18_limit_df_is_a_filter : forall (X : Type) (rows : list (@wrow X)) fs start stop reset out,
   limit_df rows fs start stop reset = Ok out ->
   let off := if reset
-             then F2Z_trunc (fs * match start with Some a => a | None => 0%float end)%float
+             then F2Z_round (fs * match start with Some a => a | None => 0%float end)%float
              else 0%Z in
   out = map (fun r => (shift_srow off (fst r), snd r)) (filter (keep_row fs start stop) rows).
 Proof. exact @limit_df_spec. Qed.
